@@ -91,7 +91,13 @@ class C09(CheckBase):
            ("bad-check-value", (C.CKA_CHECK_VALUE, b"\x00\x01\x02")), ("class-mismatch", (C.CKA_CLASS, C.CKO_HW_FEATURE)),
            ("badsize-ulong", (C.CKA_KEY_TYPE, b"\x1f")), ("trusted-by-user", (C.CKA_TRUSTED, True))]
 
-    def breakages(self, T, drops=True):
+    LOCK = [(C.CKA_DESTROYABLE, False), (C.CKA_MODIFIABLE, False), (C.CKA_COPYABLE, False)]
+
+    def breakages(self, T, drops=True, lock=False):
+        """single-point breakages of template T; lock=True: the same for T with the object locked down (not destroyable / modifiable / copyable),
+        so that a clean-up path that goes through the API's own permission checks is exercised too"""
+        if lock:
+            return [(n + "+locked", T2) for n, T2 in self.breakages(T + self.LOCK, drops)]
         out = []
         n = len(T)
         for pos_name, pos in (("first", 0), ("middle", n // 2), ("last", n)):
@@ -115,7 +121,7 @@ class C09(CheckBase):
             for token, private in combos:
                 T = F.template(kind, token=token, private=private, ident=b"new", label=b"new-object")
                 tgt = "%s|%s|%s" % (kind, "token" if token else "session", "private" if private else "public")
-                for bname, T2 in self.breakages(T):
+                for bname, T2 in self.breakages(T) + self.breakages(T, lock=True):
                     cs.append(("C_CreateObject", tgt, bname, "C_CreateObject s=%d tpl=%s" % (s0, tpl(T2))))
                 cs.append(("C_CreateObject", tgt, "ro-session" if token else "ro-session-ok", "C_CreateObject s=%d tpl=%s" % (s2, tpl(T))))
         # C_CopyObject
@@ -159,7 +165,7 @@ class C09(CheckBase):
             for token, private in combos:
                 T = base + [(C.CKA_TOKEN, bool(token)), (C.CKA_PRIVATE, bool(private)), (C.CKA_LABEL, b"generated"), (C.CKA_ENCRYPT, True)]
                 tgt = "%s|%s|%s" % (gname, "token" if token else "session", "private" if private else "public")
-                for bname, T2 in self.breakages(T):
+                for bname, T2 in self.breakages(T) + self.breakages(T, lock=True):
                     cs.append(("C_GenerateKey", tgt, bname, "C_GenerateKey s=%d mech=%s tpl=%s" % (s0, mech(gm), tpl(T2))))
                 cs.append(("C_GenerateKey", tgt, "bad-value-len", "C_GenerateKey s=%d mech=%s tpl=%s" % (s0, mech(gm), tpl([x if x[0] != C.CKA_VALUE_LEN else (C.CKA_VALUE_LEN, 17 if gname == "aes" else 0) for x in T] + [(C.CKA_VALUE_LEN, 4000)] * (gname == "des3")))))
                 cs.append(("C_GenerateKey", tgt, "mech-param-unexpected", "C_GenerateKey s=%d mech=%s tpl=%s" % (s0, mech(gm, b"\x00" * 5), tpl(T))))
@@ -175,6 +181,11 @@ class C09(CheckBase):
                 cs.append(("C_GenerateKeyPair", tgt, "pub:" + bname, "C_GenerateKeyPair s=%d mech=%s pub=%s priv=%s" % (s0, mech(C.CKM_EC_KEY_PAIR_GEN), tpl(T2), tpl(PRV))))
             for bname, T2 in self.breakages(PRV):
                 cs.append(("C_GenerateKeyPair", tgt, "priv:" + bname, "C_GenerateKeyPair s=%d mech=%s pub=%s priv=%s" % (s0, mech(C.CKM_EC_KEY_PAIR_GEN), tpl(PUB), tpl(T2))))
+            # both keys locked down: the half that was already built must still go away when the other template is rejected
+            for bname, T2 in self.breakages(PUB, lock=True):
+                cs.append(("C_GenerateKeyPair", tgt, "pub:" + bname, "C_GenerateKeyPair s=%d mech=%s pub=%s priv=%s" % (s0, mech(C.CKM_EC_KEY_PAIR_GEN), tpl(T2), tpl(PRV + self.LOCK))))
+            for bname, T2 in self.breakages(PRV, lock=True):
+                cs.append(("C_GenerateKeyPair", tgt, "priv:" + bname, "C_GenerateKeyPair s=%d mech=%s pub=%s priv=%s" % (s0, mech(C.CKM_EC_KEY_PAIR_GEN), tpl(PUB + self.LOCK), tpl(T2))))
             for nm, badparams in (("ec-params-garbage", b"\x06\x03\x01\x02\x03"), ("ec-params-empty", b""), ("ec-params-truncated", ecp[:-1])):
                 cs.append(("C_GenerateKeyPair", tgt, nm, "C_GenerateKeyPair s=%d mech=%s pub=%s priv=%s" % (s0, mech(C.CKM_EC_KEY_PAIR_GEN), tpl([(C.CKA_EC_PARAMS, badparams)] + PUB[1:]), tpl(PRV))))
             cs.append(("C_GenerateKeyPair", tgt, "rsa-modulus-bits-too-small", "C_GenerateKeyPair s=%d mech=%s pub=%s priv=%s" % (
@@ -191,7 +202,7 @@ class C09(CheckBase):
             for token, private in combos:
                 T = UT + [(C.CKA_TOKEN, bool(token)), (C.CKA_PRIVATE, bool(private))]
                 tgt = "%s|%s|%s" % (uname, "token" if token else "session", "private" if private else "public")
-                for bname, T2 in self.breakages(T):
+                for bname, T2 in self.breakages(T) + self.breakages(T, lock=True):
                     cs.append(("C_UnwrapKey", tgt, bname, "C_UnwrapKey s=%d mech=%s k=%d in=%s tpl=%s" % (s0, um, H[uk], blob(ublob), tpl(T2))))
                 if uname == "aes-cbc-pad-ec":
                     for kt, ktn in ((C.CKK_RSA, "rsa"), (C.CKK_DSA, "dsa"), (C.CKK_DH, "dh"), (C.CKK_EC_EDWARDS, "ed")):
@@ -225,7 +236,7 @@ class C09(CheckBase):
             for token, private in combos:
                 T = DT + [(C.CKA_TOKEN, bool(token)), (C.CKA_PRIVATE, bool(private))]
                 tgt = "%s|%s|%s" % (dname, "token" if token else "session", "private" if private else "public")
-                for bname, T2 in self.breakages(T):
+                for bname, T2 in self.breakages(T) + self.breakages(T, lock=True):
                     cs.append(("C_DeriveKey", tgt, bname, "C_DeriveKey s=%d mech=%s k=%d tpl=%s" % (s0, dm, H[dk], tpl(T2))))
                 T2 = [x if x[0] != C.CKA_VALUE_LEN else (C.CKA_VALUE_LEN, 200) for x in T]
                 cs.append(("C_DeriveKey", tgt, "value-len-longer-than-material", "C_DeriveKey s=%d mech=%s k=%d tpl=%s" % (s0, dm, H[dk], tpl(T2))))
@@ -248,6 +259,10 @@ class C09(CheckBase):
                        ("mech-param-short", mech(C.CKM_AES_CBC_ENCRYPT_DATA, bytes(10)))):
             for dk in ("aes_ses_pub", "ec_priv_ses", "gen_ses_prv"):
                 cs.append(("C_DeriveKey", dk, nm, "C_DeriveKey s=%d mech=%s k=%d tpl=%s" % (s0, dm, H[dk], tpl(T))))
+        # the application's output variable holds the handle of a live object before every call that returns a handle (applications reuse such
+        # variables): a failing call must neither read nor act on it
+        creators = ("C_CreateObject", "C_CopyObject", "C_GenerateKey", "C_GenerateKeyPair", "C_UnwrapKey", "C_DeriveKey")
+        cs = [(c, t, b, l + (" hinit=%d" % H["aes_tok_pub"] if c in creators else "")) for (c, t, b, l) in cs]
         return cs
 
 
@@ -307,8 +322,12 @@ def _task(task):
                     if d is None:
                         d = S.diff_disk(before_disk, S.disk_snapshot(os.path.join(sh.pwd(), "tokens")))
                         where = "disk"
+                    import re as _re
+                    preset = _re.search(r" hinit=(\d+)", line)
+                    preset = int(preset.group(1)) if preset else 0
                     for k in ("h", "hpub", "hpriv"):
-                        if d is None and r.get(k, 0):
+                        # the output variable may be left alone (still the preset value) or cleared; a NEW handle from a failed call is a residue
+                        if d is None and r.get(k, 0) and r[k] != preset:
                             d = ("handle-returned-by-failed-call", {"handle": r[k]})
                     if d is not None:
                         sig = "C09|%s|%s|%s|residue=%s:%s" % (call, family(bname), location(tgt), where, d[0])
